@@ -393,8 +393,23 @@ def _rnd(ts, dur):
     return ts, dur
 
 
+def _tiny_timestamp_ranks(k: int) -> Dict[int, List[Dict[str, Any]]]:
+    """files whose timestamps are small relative numbers (a profiler that counts from 0) and whose entries all carry a
+    duration: every integer column fits one or two bytes, while start + duration does not"""
+    from hv import synth
+
+    out = {}
+    for rk in range(1 + k % 2):
+        hi = [100, 30_000][k // 2 % 2]  # just below the int8 / int16 limit
+        evs = [synth.host_op("aten::first_op", 0 + rk, 5), synth.host_op("aten::mm", 10 + rk, hi), synth.launch(12 + rk, 5, 1),
+               synth.kernel("void gemm_kernel_a", hi // 2, hi, 7, 1), synth.launch(20 + rk, 5, 2), synth.kernel("void elementwise_kernel_b", hi + 20, 20, 7, 2),
+               synth.host_op("aten::add", hi + 15, 12)]
+        out[rk] = evs
+    return out
+
+
 def _case(arg) -> Dict[str, Any]:
-    seed, mode = arg
+    seed, mode = arg[:2]
     from hv import gen, rt
 
     nr = 1 + seed % 3
@@ -410,6 +425,9 @@ def _case(arg) -> Dict[str, Any]:
             for e in evs:
                 if isinstance(e.get("args"), dict) and "stream" in e["args"] and e["args"]["stream"] == 7:
                     e["args"]["stream"] = 0 if seed % 2 else "7"
+    if len(arg) > 2:
+        per_rank = _tiny_timestamp_ranks(arg[2])
+        nr, frac = len(per_rank), False
     fails: List[Dict[str, Any]] = []
     n = 0
     inp = {"seed": seed, "mode": mode, "events": per_rank}
@@ -472,9 +490,10 @@ def bounded(ctx):
 
     n = 40 if not ctx.thorough else 500
     args = [(ctx.seed * 1009 + i, "parse" if i % 2 else "load") for i in range(n)]
+    args += [(ctx.seed * 1009 + 5000 + k, "parse" if k % 2 else "load", k) for k in range(4)]  # small relative timestamps, narrow integer storage
     res = rt.pmap(_case, args, ctx.procs)
     return rt.summarise(res, f"{PROP}.bounded", f"{n} generated trace sets (1-3 ranks, integer/fractional timestamps, epoch offsets 0 / 1e6 / 1.7e15, stream 0 and non-numeric "
-                        "streams, .json/.json.gz, multiprocessing on/off), parse-only and full load (no trimming: < 2 profiler steps) vs. the JSON")
+                        "streams, .json/.json.gz, multiprocessing on/off; 4 files with small relative timestamps whose integer columns fit one or two bytes), parse-only and full load (no trimming: < 2 profiler steps) vs. the JSON")
 
 
 def units(ctx):
